@@ -48,7 +48,11 @@ def validate_decoded(obj):
       "(accepted classes: list, dict, gfapy.FieldArray)")
 
 def unsafe_encode(obj):
-  return json.dumps(obj)
+  try:
+    return json.dumps(obj)
+  except RecursionError as err:
+    raise gfapy.ValueError(
+      "The value cannot be represented as JSON: it is nested too deeply") from err
 
 def encode(obj):
   if isinstance(obj, str):
@@ -65,6 +69,9 @@ def encode(obj):
       raise gfapy.ValueError(
         "{} cannot be represented as JSON\n".format(repr(obj))+
         "error message: {}".format(str(err))) from err
+    except RecursionError as err:
+      raise gfapy.ValueError(
+        "The value cannot be represented as JSON: it is nested too deeply") from err
     validate_all_printable(string)
     return string
   else:
